@@ -30,6 +30,19 @@ example : (run (init {}) [.set [1] [2], .flush true 0 { res := .ok, applied := 0
 /-- the former counter-example `stage; set k v; BatchGet(k); cleanup; Get(k)` now reads "not found" -/
 example : readValue (run (init {}) [.stage, .set [0x6b] [0x09], .batchGet [[0x6b]], .cleanup]) [0x6b] = none := by decide
 
+/-- the same for BatchGet, for every op sequence: the map it returns holds, for every requested key, the newest entry of
+    the key in the transaction's write log (an entry with the empty value for a deleted key) and no entry for a key that
+    was never written or not requested -/
+theorem batch_get_latest (cfg : Cfg) (ops : List Op) (ks : List Bytes) (k : Bytes)
+    (hnf : (run (init cfg) ops).failed = false) :
+    (batchGet (runBoth (init cfg, {}) ops).1 ks).2.get k =
+      if k ∈ ks then (runBoth (init cfg, {}) ops).2.cur.get k else none := by
+  have h := inv_run ops (inv_init cfg) hnf
+  rw [batchGet_result]
+  by_cases hk : k ∈ ks
+  · simp only [hk, if_true]; exact h.view k
+  · simp only [hk, if_false]
+
 /-- a deletion hides every tier: when the newest write of `k` is a delete, a read returns the tombstone (empty value),
     never an older value from the flushing buffer, the cache or the store -/
 theorem delete_hides_all_tiers (cfg : Cfg) (ops : List Op) (k : Bytes)
